@@ -30,6 +30,9 @@ EXTRA = {}
 
 D = datetime.datetime
 NAMES = ['a', 'b', 'c', 'd']
+# column names that are also parameter names of dictable.__init__: legal keys of a dict of columns, of records, of
+# d[key] = value and targets of relabel - and swallowed wherever the code expands the columns into keywords
+RNAMES = ['data', 'columns']
 CELLS = [None, None, 0, 1, 2, 3, -1, 7, 1.0, 2.5, -0.25, 0.5, 'x', 'y', 'zz', '', D(2020, 1, 1), D(2021, 6, 30, 12)]
 MAXH = 6
 
@@ -296,7 +299,12 @@ def compare(case, i, line, ir, mr):
     if not (isinstance(a, list) and isinstance(b, list) and len(a) == 3 and len(b) == 3):
         return "malformed reply: implementation %s, model %s" % (ir[:200], mr[:200])
     oa, ob = a[1], b[1]
-    same_heap = proto.canon(a[2]) == proto.canon(b[2])
+    try:
+        same_heap = proto.canon(a[2]) == proto.canon(b[2])
+    except Exception:
+        # e.g. a column whose name is the empty string (only produced when cells end up as column names)
+        return 'tables differ after the operation (a dump cannot be canonicalised): implementation %s, model %s' % (
+            proto.render(a[2])[:300], proto.render(b[2])[:300])
     ea = isinstance(oa, list) and oa and oa[0] == 'E'
     eb = isinstance(ob, list) and ob and ob[0] == 'E'
     if ea and eb and same_heap:
@@ -416,10 +424,16 @@ def g_new(S, dst=None, allow_bad=True):
         S.emit('(tbl new h%d N N %s)', dst, kv(d))
         S.bind(dst, cols, m)
     elif r < 0.5:       # a dict of columns as data
+        if cols and rng.random() < 0.15:
+            cols = cols[:-1] + [rng.choice(RNAMES)]
+            S.tags.add('reserved-name')
         d = {c: S.column(n) for c in cols}
         S.emit('(tbl new h%d %s N (D))', dst, kv(d))
         S.bind(dst, cols, n if cols else 0)
     elif r < 0.7:       # records, possibly with different key sets
+        if cols and rng.random() < 0.15:
+            cols = cols[:-1] + [rng.choice(RNAMES)]
+            S.tags.add('reserved-name')
         recs = []
         for _ in range(n):
             ks = [c for c in cols if rng.random() < 0.8]
@@ -484,8 +498,11 @@ def g_op(S):
     if r < 0.08:
         return g_new(S)
     if r < 0.22:        # column assignment
-        key = rng.choice(NAMES) if rng.random() < 0.95 else rng.choice([1, 2])
+        q = rng.random()
+        key = rng.choice(NAMES) if q < 0.87 else rng.choice(RNAMES) if q < 0.95 else rng.choice([1, 2])
         name = str(key)
+        if key in RNAMES:
+            S.tags.add('reserved-name')
         if cols and rng.random() < 0.22:
             S.emit('(tbl setitem h%d %s %s)', h, enc(key), enc(S.misfit(n)))
             S.tags.add('setitem-misfit')
@@ -547,7 +564,7 @@ def g_op(S):
             k = rng.choice(cols) if cols and rng.random() < 0.85 else absent(cols)
             S.emit('(tbl col h%d %s)', h, enc(k))
         else:
-            ks = [rng.choice(cols) for _ in range(rng.choice([1, 2, 3]))] if cols and rng.random() < 0.9 else ['a', absent(cols)]
+            ks = [rng.choice(cols) for _ in range(rng.choice([0, 1, 2, 2, 3, 3]))] if cols and rng.random() < 0.9 else ['a', absent(cols)]
             S.emit('(tbl tup h%d %s)', h, enc(tuple(ks)))
         return
     dst = S.dst()
@@ -567,7 +584,10 @@ def g_op(S):
         return
     if r < 0.61:        # boolean mask
         q = rng.random()
-        if q < 0.12:
+        if q < 0.03:
+            m = []                     # d[[]]: no rows, all columns
+            S.tags.add('mask-empty-list')
+        elif q < 0.12:
             m = [False] * n if n else [False]
             S.tags.add('mask-all-false')
         elif q < 0.24:
@@ -684,12 +704,18 @@ def g_op(S):
             S.emit('(tbl relabel h%d h%d %s (D))', dst, h, enc(affix))
             new = [c + affix if affix.startswith('_') else affix + c if affix.endswith('_') else c for c in cols]
         else:
-            pool = [c for c in NAMES + ['e', 'f'] if c not in cols]
+            pool = [c for c in NAMES + ['e', 'f'] + RNAMES + RNAMES if c not in cols]
             olds = rng.sample(cols, min(len(cols), rng.choice([1, 1, 2]))) if cols else []
             mp = {}
             for o in olds:
                 if pool:
                     mp[o] = pool.pop(rng.randrange(len(pool)))
+                    pool = [c for c in pool if c != mp[o]]
+                    if mp[o] in RNAMES:
+                        S.tags.add('reserved-name')
+            # NOT generated: renaming onto an existing name. Which of the two columns survives depends on the column ORDER
+            # (dict comprehension: later value), and the order of a concatenation / of records comes from a python set:
+            # `dictable([dict(d='zz'), dict(b=3)]).relabel(b='d')` keeps either column. Proved on the model (abs_relabel_any).
             if rng.random() < 0.2:
                 mp[absent(cols)] = absent(cols + [absent(cols)])      # renaming a column that is not there changes nothing
             if len(cols) >= 2 and rng.random() < 0.1:
@@ -698,7 +724,7 @@ def g_op(S):
                 S.tags.add('relabel-swap')
             S.emit('(tbl relabel h%d h%d N %s)', dst, h, kv(mp))
             new = [mp.get(c, c) for c in cols]
-        S.bind(dst, new, n)
+        S.bind(dst, [c for i, c in enumerate(new) if c not in new[:i]], n)
         return
     if r < 0.91:        # per-column transform
         idc = [c for c in cols if c.isidentifier()]
@@ -920,6 +946,37 @@ def laws(rng, tier, ctx):
                     if keys != set(c for k in hs for c in before[k]) or len(got) != len(want) or not all(
                             all(_same_cell(g[c], w[c]) for c in keys) for g, w in zip(got, want)):
                         yield Finding('violation', case, 'concatenation is not the operands\' rows in order with None fill')
+                        break
+            # renaming: every column is still there under its new name (distinct new names), same cells; a projection
+            # carries exactly the requested columns
+            if op == 'relabel' and raised is None:
+                src = before[int(sx[3][1:])]
+                affix = None if sx[4] == 'N' else proto.dec(sx[4])
+                mp = _dict(sx[5])
+
+                def newname(c):
+                    if c in mp:
+                        return mp[c]
+                    if affix and affix.startswith('_'):
+                        return c + affix
+                    if affix and affix.endswith('_'):
+                        return affix + c
+                    return c
+                names = [newname(c) for c in src]
+                if len(set(names)) == len(names):
+                    res = _snap(state[int(sx[2][1:])])
+                    if not _same_table(res, {newname(c): src[c] for c in src}):
+                        yield Finding('violation', case, 'relabel by an injective map lost or changed columns: %s -> %s, expected %s' % (
+                            list(src), list(res), names))
+                        break
+            if op == 'proj' and raised is None:
+                src = before[int(sx[3][1:])]
+                ks = proto.dec(sx[4])
+                if ks:
+                    res = _snap(state[int(sx[2][1:])])
+                    uniq = [k for i, k in enumerate(ks) if k not in ks[:i]]
+                    if not _same_table(res, {k: src[k] for k in uniq}):
+                        yield Finding('violation', case, 'd[%r] does not carry exactly the requested columns: %s' % (ks, list(res)))
                         break
             # a mask of the table's length keeps exactly the flagged rows, in order, and all columns
             if op == 'mask' and raised is None:
